@@ -169,6 +169,17 @@ func ruleU1(c *Ctx, id string) {
 							ok := notLevel(wScopes, sc, at, fileSync) && notLevel(wScopes, sc, at, dataSync)
 							R.Check(ok, id, "NFSPROC3_WRITE|CommitUnstable only when neither FILE_SYNC nor DATA_SYNC", P.Pos(call.Pos()), "the asynchronous commit becomes the function called only where args.Stable is neither FILE_SYNC nor DATA_SYNC", "both guards dominate", "a write requested with stable semantics is acknowledged after an asynchronous commit")
 						}
+					case *ssa.MakeClosure:
+						// a method value bound to the transaction ("commit = op.CommitUnstable")
+						if f, isF := x.Fn.(*ssa.Function); isF {
+							if tf := terminatorOf(V, f); tf == nil {
+								R.Undecided(id, "NFSPROC3_WRITE|commit chosen", P.Pos(call.Pos()), "the function called is a terminator chosen by the stability level", "a closure that is not a bound terminator")
+							} else if tf == V.CommitUnstable {
+								nUnstable++
+								ok := notLevel(wScopes, sc, at, fileSync) && notLevel(wScopes, sc, at, dataSync)
+								R.Check(ok, id, "NFSPROC3_WRITE|CommitUnstable only when neither FILE_SYNC nor DATA_SYNC", P.Pos(call.Pos()), "the asynchronous commit becomes the function called only where args.Stable is neither FILE_SYNC nor DATA_SYNC", "both guards dominate", "a write requested with stable semantics is acknowledged after an asynchronous commit")
+							}
+						}
 					case *ssa.Extract:
 						lk, isL := x.Tuple.(*ssa.Lookup)
 						if !isL {
